@@ -253,6 +253,72 @@ func min(a, b int) int {
 	return b
 }
 
+// psetLengthFields walks the key/value framing of a PSET stream (magic, then maps of
+// <varint keylen><key><varint vallen><value> closed by 0x00) and returns the offsets of
+// the length fields together with their encoded width.
+func psetLengthFields(b []byte) (offs []int, widths []int) {
+	p := 5
+	readVar := func() (uint64, int, bool) {
+		if p >= len(b) {
+			return 0, 0, false
+		}
+		switch b[p] {
+		case 0xfd:
+			if p+3 > len(b) {
+				return 0, 0, false
+			}
+			return uint64(b[p+1]) | uint64(b[p+2])<<8, 3, true
+		case 0xfe:
+			if p+5 > len(b) {
+				return 0, 0, false
+			}
+			return uint64(b[p+1]) | uint64(b[p+2])<<8 | uint64(b[p+3])<<16 | uint64(b[p+4])<<24, 5, true
+		case 0xff:
+			return 0, 0, false
+		}
+		return uint64(b[p]), 1, true
+	}
+	for p < len(b) {
+		n, w, ok := readVar()
+		if !ok {
+			return
+		}
+		if n == 0 { // separator
+			p += w
+			continue
+		}
+		offs, widths = append(offs, p), append(widths, w)
+		p += w + int(n)
+		n, w, ok = readVar()
+		if !ok {
+			return
+		}
+		offs, widths = append(offs, p), append(widths, w)
+		p += w + int(n)
+	}
+	return
+}
+
+// mutatePsetLength replaces one key- or value-length field by a hostile or off-by-one length
+func mutatePsetLength(r *Rng, ser []byte) []byte {
+	offs, widths := psetLengthFields(ser)
+	if len(offs) == 0 {
+		return ser
+	}
+	k := r.Intn(len(offs))
+	repl := [][]byte{
+		{0xff, 0xff, 0xff, 0xff, 0xff, 0xff, 0xff, 0xff, 0xff}, {0xff, 0, 0, 0, 0, 0, 0, 0, 0x80},
+		{0xff, 0xff, 0xff, 0xff, 0xff, 0xff, 0xff, 0xff, 0x7f}, {0xfe, 0xff, 0xff, 0xff, 0x7f}, {0xfe, 0, 0, 0, 0x80},
+		{0xfd, 0x11, 0x27}, {0xfd, 0xff, 0xff}, {0xfe, 0x01, 0x09, 0x3d, 0x00}, {0}, {1},
+	}[r.Intn(10)]
+	if r.Chance(30) {
+		repl = []byte{ser[offs[k]] + byte(r.Pick(1, 255))}
+	}
+	out := append([]byte{}, ser[:offs[k]]...)
+	out = append(out, repl...)
+	return append(out, ser[offs[k]+widths[k]:]...)
+}
+
 // dec <kind> <mutation-kind> <hex of the bytes / text>
 func genDecCases(r *Rng, n int, w *bufio.Writer) {
 	sd := loadSeeds()
@@ -282,13 +348,21 @@ func genDecCases(r *Rng, n int, w *bufio.Writer) {
 				continue
 			}
 			b, _ := base64.StdEncoding.DecodeString(sd.psetV0B64[r.Intn(len(sd.psetV0B64))])
-			mk, payload = mutateBytes(r, b)
+			if r.Chance(40) {
+				mk, payload = 8, mutatePsetLength(r, b)
+			} else {
+				mk, payload = mutateBytes(r, b)
+			}
 		case "psetv2":
 			if len(sd.psetV2B64) == 0 {
 				continue
 			}
 			b, _ := base64.StdEncoding.DecodeString(sd.psetV2B64[r.Intn(len(sd.psetV2B64))])
-			mk, payload = mutateBytes(r, b)
+			if r.Chance(40) {
+				mk, payload = 8, mutatePsetLength(r, b)
+			} else {
+				mk, payload = mutateBytes(r, b)
+			}
 		case "address":
 			var s string
 			mk, s = mutateText(r, genAddress(r))
